@@ -629,6 +629,9 @@ var grammarOps = []struct {
 	{"truncate", 5, opTruncate},
 	{"numeric-boundary", 16, opNumericBoundary},
 	{"rejected-late-text", 12, opRejectedLate},
+	{"identity-cluster", 10, opIdentityCluster},
+	{"foreign-submodule", 6, opForeignSubmodule},
+	{"share-name", 7, opShareName},
 }
 
 // mutateSet applies 1–3 grammar-aware operators to a copy of the set.
